@@ -306,3 +306,53 @@ def dress_pred(p, how):
                 return p(history_arg, count_arg)
         return Holder().keep_going
     raise ValueError('unknown predicate dressing %r' % (how,))
+
+
+# ---- re-entrancy, aliasing return values, call forms (round 6)
+class Reentrant:
+    """runs `nested()` — a complete library call of its own, typically an evolution on a ring / grid of the SAME
+    geometry and dtype with another rule — before and after computing v = f(n, c, t), and returns v.  A library
+    that keeps per-geometry scratch buffers or module-level tables lets the nested call clobber the outer one.
+    The model side is the underlying f (the nested call has no effect on the outer evolution)."""
+    def __init__(self, f, nested):
+        self.f, self.nested, self.depth = f, nested, 0
+
+    def __call__(self, nbhd_arg, cell_arg, step_arg):
+        if self.depth == 0:                # the nested evolution may use this very rule object: do not recurse further
+            self.depth += 1
+            try:
+                self.nested()
+                v = self.f(nbhd_arg, cell_arg, step_arg)
+                self.nested()
+            finally:
+                self.depth -= 1
+            return v
+        return self.f(nbhd_arg, cell_arg, step_arg)
+
+
+class ProjView1:
+    """pure 1D rule returning cell k of its neighbourhood AS A ZERO-DIMENSIONAL VIEW of the argument (shares its
+    memory): if the library re-uses the neighbourhood's buffer after the call, a stored result changes under its
+    feet.  Model side: Lin with one-hot weights and a modulus above every cell value (cells must be >= 0)."""
+    def __init__(self, k):
+        self.k = k
+
+    def __call__(self, nbhd_arg, cell_arg, step_arg):
+        a = nbhd_arg if isinstance(nbhd_arg, np.ndarray) else np.asarray(nbhd_arg)
+        return a[self.k:self.k + 1].reshape(())
+
+
+class ProjView2:
+    """2D counterpart of ProjView1: returns entry (i, j) of the (possibly masked) neighbourhood block as a 0-d view"""
+    def __init__(self, i, j):
+        self.i, self.j = i, j
+
+    def __call__(self, nbhd_arg, cell_arg, step_arg):
+        a = nbhd_arg.data if isinstance(nbhd_arg, np.ma.MaskedArray) else nbhd_arg
+        return a[self.i:self.i + 1, self.j:self.j + 1].reshape(())
+
+
+def invoke(fn, names, values, npos):
+    """call fn with the first `npos` values positionally and the rest by keyword: the same call written the three
+    ways a caller may write it (all positional, all keyword, mixed)."""
+    return fn(*values[:npos], **dict(zip(names[npos:], values[npos:])))
